@@ -19,7 +19,7 @@ STUBS = []
 
 def xh_conditions(tier):
     t = 320 if tier == "quick" else 600
-    names = [f"_bs_like_k{k}" for k in range(4)] + ["_ps_like", "_other"] + [f"_pair_k{k}" for k in range(8)] + ["_parent_heralds"] + [f"_group_n{n}_{w}" for n in (3, 4) for w in ("flat", "nested")] + ["_group_mpl", "_all_heralded_mpl", "_all_heralded_svg", "_labels_and_type", "_labels_ext_herald_mpl", "_labels_ext_herald_svg"]
+    names = [f"_bs_like_k{k}" for k in range(4)] + ["_ps_like", "_other"] + [f"_pair_k{k}" for k in range(8)] + ["_parent_heralds"] + [f"_group_n{n}_{w}" for n in (3, 4) for w in ("flat", "nested")] + ["_group_mpl", "_all_heralded_mpl", "_all_heralded_svg", "_labels_and_type", "_labels_ext_herald_mpl", "_labels_ext_herald_svg", "_barrier_variants"]
     if tier != "quick":
         names.append("_mpl_one")
     return [dict(name=f"display.{c}", file="xh/c19_display.py", func=c, timeout=t, prop="C19") for c in names]
